@@ -18,15 +18,32 @@ LEVEL_TEXT = ("Lean theorems over a statement-by-statement model of one row of m
               "sign flip, reciprocal, rescaling, real power, exp, log|.| with explicit derivatives (fisher_one_param, fisher_sign_flip, ...).  "
               "Proof level for this decision logic and this calculus; sympy subs/jacobian/lambdify and np.linalg.inv are inputs of the model "
               "and are checked on every run against an independent chain-rule oracle on synthetic libraries run through the real match.main; "
-              "the oracle's J^-T F J^-1 is itself sampled against fisher_matrix_of_variant by finite differences of the variant's likelihood.")
+              "the oracle's J^-T F J^-1 is itself sampled against fisher_matrix_of_variant by finite differences of the variant's likelihood.  "
+              "Props/C05c: row independence.  The stage is modelled twice, as a map of matchOne over the rows (matchFile) and as the loop that threads the "
+              "tables negloglike/params_meas/all_fish through the iterations (matchLoop); an iteration can change the tables exactly when an array it writes "
+              "in place is not a fresh row-local array, and that alias fact is regenerated from the source (Generated/Match.lean snapPaths: one entry per "
+              "in-place write and origin reaching it, forward may-analysis of the loop body, harness/extractors/_norm_c05.py).  rows_do_not_share_state is a "
+              "decide over the regenerated table; matchStage_eq_matchFile needs it; matchFile_row_local / _perm / _reindex / _reverse / _remove / _add and "
+              "matchStage_ranks (with C14's getFunctions_tiles) are the consequences, each checked on the real match.main by metamorphic runs of libraries "
+              "in which every unique function has 16-32 variants (every ordered pair of chain kinds, every below/at/above-threshold pattern for k<=2).")
 TECHNIQUE = ("Lean 4 proof on a hand model of match.main's row logic + regenerated guard/constants + model-code correspondence on synthetic "
              "libraries (real match.main, 1-3 ranks) + independent numpy chain-rule oracle, "
-             "whose transformed Fisher matrix is sampled against theorem ESR.C05.fisher_matrix_of_variant by central finite differences")
+             "whose transformed Fisher matrix is sampled against theorem ESR.C05.fisher_matrix_of_variant by central finite differences "
+             "+ regenerated alias (freshness) table of every in-place write of the loop, decided in Lean "
+             "+ metamorphic runs of the real match.main (function order reversed / shuffled, one variant per unique function removed, 1-3 ranks) on "
+             "libraries with many variants per unique function, outputs compared bit for bit per function")
 RULE = ("one evaluation = one row of a synthetic library pushed through the real match.main; distinct = (number of parameters, chain of "
-        "templates, sign/threshold class of theta); non-trivial = non-empty chain or a snapped parameter")
+        "templates, sign/threshold class of theta); non-trivial = non-empty chain or a snapped parameter.  Family libraries: for every k<=2 and every "
+        "below/at/above pattern per parameter (k=3: 6 patterns, 27 at thorough depth) one unique function whose variants are listed as K + reversed(K), "
+        "K a seeded permutation of (same parameterisation; sign flip, reciprocal, cube root of each parameter; rescale; swap/cycle; rename; nan), so every "
+        "ordered pair of kinds occurs for the same unique function on the same rank; 6 schedules per library")
 EXPLANATION = LEVEL_TEXT
 TRUSTED = ["hand model ESRVerif/Model/Match.lean of match.py:64-229 and of the list-level part of simplifier.convert_params (tied by correspondence on every row)",
-           "harness/extractors/match.py (guard AST, constants)",
+           "harness/extractors/match.py (guard AST, constants, statement order incl. the `if chain empty: ... else: try: convert_params` split)",
+           "harness/extractors/_norm_c05.py: the freshness rules (which numpy calls return new arrays, which pass their argument through, basic slice = view, "
+           "list/boolean-mask index = copy; results of simplifier.convert_params / count_params are new objects; callees do not write into their array arguments - "
+           "simplifier.convert_params is hash-tracked in MODELLED) - fail closed: anything not positively fresh is reported as not fresh",
+           "row independence on the real code is checked on the schedules run (6 per library), not for every permutation; the Lean theorems are about the model",
            "sympy subs/jacobian/lambdify and np.linalg.inv inside simplifier.convert_params: inputs of the model, compared with the independent chain-rule oracle "
            "(closed-form derivative per template, composed by the chain rule); that the oracle's F' = J^-T F J^-1 is the Hessian of the variant's negative "
            "log-likelihood is theorem ESR.C05.fisher_matrix_of_variant (diagonal: fisher_diag_monomial), no longer an assumption; the oracle samples it: central "
@@ -46,7 +63,9 @@ ASSUMPTIONS = ["try_integration=False (the default) in match.main",
                "variant evaluated at g(theta) is the unique function evaluated at theta for theta near theta^"]
 # tables whose committed version may stand in as a hand-written model when the translator cannot read the source;
 # value = the correspondence that then ties it to the code (common.prove / common.decide)
-FALLBACK = {'Match': 'real match.main on synthetic libraries (all chains) vs the Lean matchRow model, bit-exact decisions'}
+FALLBACK = {'Match': 'real match.main on synthetic libraries (all chains) vs the Lean matchRow model, bit-exact decisions, and row independence of the real '
+                     'match.main (the alias fact of the table) checked directly: family libraries with every ordered pair of chain kinds per unique function, '
+                     're-run reversed / shuffled / with variants removed / on 2 and 3 ranks, per-function output bit-identical'}
 MODELLED = ["match.py:main", "simplifier.py:convert_params", "simplifier.py:load_subs"]
 LEANCHECKER = True
 
